@@ -22,7 +22,7 @@ CLAIMED = {
              "the counts inside the declared range; react's delimiter loop contributes every piece of split(value, declared delimiter) unfiltered, and keeps a delimited value whole exactly under dont_delimit_trailing_values at or after the first "
              "trailing index (solver clause over the index arithmetic); parse_long_arg / parse_short_arg return MaybeHyphenValue before any key lookup when the pending option OR positional allows hyphen values. "
              "Index bookkeeping: one pass of push_arg_values (one value, one index, in that order) and react's rule for the flag's own index; the positional-counter block (see C05) and short_cluster_resume (see C01). "
-             "Says nothing about the rest of token classification (DESIGN 0).",
+             "parse_long_arg never dispatches a long flag subcommand with an attached value; the first trailing index is recorded once (trailing_idx_once). Says nothing about the rest of token classification (DESIGN 0).",
         note="Kernel-level only. Trusted: rustc/Kani translation, std as compiled by Kani, CBMC; for the MIR kernels every callee is a pure opaque value (listed in the evidence).",
         ref="2 C02", technique=MIX),
     "C03": dict(
@@ -30,7 +30,8 @@ CLAIMED = {
              "Validator::validate_exclusive accepts without search iff at most one argument is explicitly present, counts as present exactly the explicit real arguments, and reports an argument "
              "iff it is exclusive and not alone. One pass of each loop of Validator::validate_required from an arbitrary state (who is reported missing; required_if_eq_any is any-of; the highest_index step) "
              "and the data flow of gather_arg_direct_conflicts (own conflicts, every group's conflicts, other members of a non-multiple group, overrides). "
-             "MatchedArg::check_explicit: Equals(v) is decided by ANY raw value matching, case-folded iff ignore_case. "
+             "MatchedArg::check_explicit: Equals(v) is decided by ANY raw value matching, case-folded iff ignore_case. Validator::validate's phases: conflicts are checked on every path that is not help/missing-subcommand, "
+             "required is skipped iff subcommand_negates_reqs and a subcommand is present. "
              "The required graph (gather_requires / unrolling), conflict search over the matcher and is_missing_required_ok's body are opaque and not claimed.",
         note="Detects changes to check_explicit/set_source/is_explicit/ValueSource order, validate_exclusive and its closures, the loop bodies of validate_required and gather_arg_direct_conflicts only.",
         ref="2 C03", technique=MIX),
@@ -76,13 +77,14 @@ CLAIMED = {
         text="PARTIAL (very thin). Data-flow check (MIR->SMT path enumeration, feasibility by z3 + cvc5) of Parser::parse_subcommand: on every feasible path the child parser and the child matcher are both created "
              "from the command returned by _build_subcommand(name), the child parser parses into the child's own matcher, the child's matches are attached to the parent matcher exactly once, and a child "
              "error is returned iff errors are not ignored. One pass of each loop of Command::_propagate_global_args: a subcommand is skipped iff it is named help AND the help subcommand is autogenerated, "
-             "globals are cloned into a subcommand iff it does not define the id. The candidate closures of subcommand inference (see C08). Exact-name recognition, external subcommands and how matches of globals are copied between levels are NOT decided.",
+             "globals are cloned into a subcommand iff it does not define the id. The candidate closures of subcommand inference (see C08). One iteration of Parser::parse: a token is tested for being a subcommand only with subcommand precedence or outside an option's/positional's values. Exact-name recognition, external subcommands and how matches of globals are copied between levels are NOT decided.",
         note="All callees opaque; argument identity is tracked by the keys of opaque call results; realised natively by a 3-level command with same-named arguments.",
         ref="2 C09", technique="own MIR->SMT translation: call data-flow on paths, infeasibility of violating paths by z3 + cvc5, native replay"),
     "C10": dict(
         text="PARTIAL. (Kani) kind -> stream -> exit code for EVERY ErrorKind (exhaustive match, symbolic discriminant). (MIR->SMT) value-count verification: Parser::verify_num_args rejects "
              "exactly the counts outside the declared range and names the rule really broken (empty / wrong number / too few / too many), never when errors are ignored; the unknown-token triage of match_arg_error (which error for which situation); who is named missing by validate_required (one pass of each of its loops, see C03). "
-             "The candidate closures of subcommand inference (a valid unique prefix of any alias is not an error; see C08). Conflict justification and suggestions are out of reach.",
+             "The candidate closures of subcommand inference (a valid unique prefix of any alias is not an error; see C08). Validator::validate's phases incl. when help is shown instead of an error (arg_required_else_help counts arguments). "
+             "Conflict justification and suggestions are out of reach.",
         note="Covers Error::new/stream/use_stderr/exit_code, verify_num_args, match_arg_error and the loop bodies of validate_required only.",
         ref="2 C10", technique=MIX),
     "C11": dict(
@@ -96,7 +98,8 @@ CLAIMED = {
         text="PARTIAL. Solver-decided (MIR->SMT, z3 + cvc5) absence of integer overflow/underflow in the help column arithmetic (align_to_about, subcmd, arg_next_line_help, subcommand_next_line_help, "
              "with longest_filter and Arg::is_positional inlined; the link between `longest` and the widths is derived from the MIR of write_args' loop body incl. a discharged monotonicity obligation), "
              "functional equivalence of the visibility predicates should_show_arg / should_show_subcommand with their documented rule; the possible-values block of HelpTemplate::help reaches its "
-             "`.max().expect()` only when some possible value is shown; one pass of Usage::write_args' positional loop skips a hidden positional before anything is rendered or stored for it; option_sort_key is injective on ASCII short flags (no visible option overwrites another in the help map). "
+             "`.max().expect()` only when some possible value is shown; one pass of Usage::write_args' positional loop skips a hidden positional before anything is rendered or stored for it; option_sort_key is injective on ASCII short flags (no visible option overwrites another in the help map; across kinds it is NOT - a recorded known finding, DESIGN 1.5(12)); "
+             "AutoHelp::write_help picks the listing template iff an argument is shown or a subcommand is visible. "
              "Says nothing about section assembly, templates or wrapping.",
         note="Call results (display widths, Arg getters) are free symbols under the contracts listed in the evidence; loops are not encoded (one loop body is); "
              "a sat answer is only reported after a native replay on a family of concrete commands misbehaves.",
@@ -116,7 +119,7 @@ CLAIMED = {
         text="PARTIAL (thin). Solver-decided (MIR->SMT, z3 + cvc5) panic- and overflow-freedom of ONE iteration of clap_complete::engine::complete's shadow-parse loop from an ARBITRARY state "
              "(parse state, positional index, escape flag, current command havoc'd), with parse_positional / parse_opt_value executed from their own MIR and opt_allows_hyphen / pos_allows_hyphen inlined. "
              "complete_arg: on every Ok path hidden candidates are filtered (retain(!hidden) iff any(!hidden)) BEFORE the de-duplication by id; the subcommand level is advanced by Command::find_subcommand(value) "
-             "and nothing else. What complete_option / complete_subcommand / complete_arg_value enumerate and the shell adapters are not decided.",
+             "and nothing else; an option awaits a value only if it takes values and none was attached. What complete_option / complete_subcommand / complete_arg_value enumerate and the shell adapters are not decided.",
         note="One loop body as a MIR fragment; callees other than the four helpers are opaque pure values; counters bounded by 2^48; candidates are realised by /verif/native/c18 through the public API.",
         ref="2 C18", technique="own MIR->SMT translation of a loop body (bit-vectors), z3 + cvc5, native replay"),
     "C19": dict(
@@ -177,7 +180,7 @@ def main():
         ],
         "checks": checks,
         "not_applicable": [{"property_id": k, "reason": v} for k, v in sorted(na.items())],
-        "notes": "Every verdict is 'holds for all inputs inside the bound stated in evidence/<id>.json'. exit 2 = inconclusive (timeout/OOM/vacuous harness/unreproduced counterexample), never reported as success. Known findings (genuine defects recorded rather than repaired) and the list of repaired ones are in /verif/known_findings.txt: currently one finding (C11, no_binary_name) and eight `fixed:` entries whose fix: commits are in /repo. See DESIGN.md 1.5.",
+        "notes": "Every verdict is 'holds for all inputs inside the bound stated in evidence/<id>.json'. exit 2 = inconclusive (timeout/OOM/vacuous harness/unreproduced counterexample), never reported as success. Known findings (genuine defects recorded rather than repaired) and the list of repaired ones are in /verif/known_findings.txt: currently two findings (C11 no_binary_name usage names; C12 sort-key collision between a short flag and a long-only option) and ten `fixed:` entries whose fix: commits are in /repo. See DESIGN.md 1.5.",
     }
     with open(os.path.join(VERIF, "MANIFEST.json"), "w") as f:
         json.dump(m, f, indent=1)
